@@ -906,11 +906,15 @@ SPECS["C09"]["theorems"] += [
     "Woodpile.Props.C09H.enc_lag_struct",
     "Woodpile.Props.C09H.enc_lag_le_partial",
     "Woodpile.Props.C09H.dec_lag_zero_world",
+    "Woodpile.Props.C09H.enc_drained_stable_prefix",
+    "Woodpile.Props.C09H.enc_drained_complete",
 ]
 SPECS["C09"]["level_text"] += (' Props/C09H (track anch) lifts the method restriction of Props/C09W: the exact structural lag of the encoder-driven iovec '
     '(enc_lag_struct) and decoder lag 0 (dec_lag_zero_world) hold for ALL input methods (EncWorld.ACall: borrow, copy, anchored reads). '
     'C09H.enc_lag_le_partial is still `_partial`, for ONE reason: the constant bound takes the in-capacity hypothesis (as C09W); C09G discharges it for '
-    'borrow/copy input only, and with anchored input the constant is max(2^20, largest read_n count), not 2^20.')
+    'borrow/copy input only, and with anchored input the constant is max(2^20, largest read_n count), not 2^20. The PREFIX clause on the structural iovec '
+    '(enc_drained_stable_prefix): between the calls of any run, drained ++ bytes of the first n slices, n = Iov.stableCount (what the driver prints through), '
+    'is a prefix of Spec.encode of the whole input whatever calls follow; enc_drained_complete: nothing is lost at the end.')
 SPECS["C17"]["lean_modules"] += ["Woodpile.Props.C17W"]
 SPECS["C17"]["theorems"] += [
     "Woodpile.Props.C17W.codec_read_n",
